@@ -130,7 +130,12 @@ def _r2(model, res, c, key):
     for stmt, val in sa.assignments_to(f, args_p):
         par = m.parent(stmt)
         ok = isinstance(par, ast.If) and isinstance(par.test, ast.Compare) and src(par.test) == '%s is None' % args_p \
-            and isinstance(val, ast.List) and not val.elts
+            and stmt in par.body and isinstance(val, ast.List) and not val.elts
+        if isinstance(val, ast.IfExp):      # args = [] if args is None else args   (or the mirrored spelling)
+            t, a, b = src(val.test), val.body, val.orelse
+            if t == '%s is not None' % args_p:
+                t, a, b = '%s is None' % args_p, b, a
+            ok = t == '%s is None' % args_p and isinstance(a, ast.List) and not a.elts and isinstance(b, ast.Name) and b.id == args_p
         res.ob('R2', site, 'args rebound: %s' % src(stmt), ok)
         if not ok:
             res.violation('R2', '%s:%s:args-rebound' % key, m.where(stmt),
